@@ -399,6 +399,24 @@ def _session(payload):
     return out
 
 
+def world_replay(payload):
+    """Replay form of a world/first-use-order disagreement: run the session in
+    this world and compare one table entry with the rule recorded elsewhere."""
+    res = run_session(payload)
+    exp = payload["expect"]
+    got = res["table"].get(exp["key"])
+    violations = list(res["violations"])
+    if got is not None and got != exp["rule"]:
+        violations.append(
+            {
+                "invariant": "dispatch-depends-on-world",
+                "message": "%s dispatched to %s in world %s and to %s in this world" % (exp["key"], exp["rule"], exp["world"].get("index"), got),
+                "fingerprint": "dispatch-depends-on-world",
+            }
+        )
+    return {"violations": violations, "stats": res["stats"], "table": {}}
+
+
 def shadow_registry_check(mon, r, stats):
     """Rebuild each dispatcher's registry in a seeded permuted registration
     order; the winner for every observed type tuple must be the same rule."""
@@ -799,7 +817,7 @@ def cross_check(jobs, results):
             if prev[0] != v and len(out) < 3:
                 out.append(
                     (
-                        job,
+                        dict(job, fn="world_replay", payload=dict(job["payload"], expect={"key": k, "rule": prev[0], "world": prev[1]["world"]})),
                         {
                             "invariant": "dispatch-depends-on-world",
                             "message": "%s dispatched to %s in world %s and to %s in world %s"
